@@ -161,6 +161,50 @@ func (st dirState) matches(m *Model, counterLo, counterHi int64) string {
 	return ""
 }
 
+// matchesAfterRemovals: the removal of some snapshots was attempted (each may
+// have happened or not): the directory reopens, the live image is the model's,
+// every other retained user snapshot is there and unchanged.
+func (st dirState) matchesAfterRemovals(m *Model, counterLo, counterHi int64, removed ...string) string {
+	if st.OpenErr != nil {
+		return "does not reopen: " + st.OpenErr.Error()
+	}
+	if st.MetaErr != "" {
+		return "metadata does not parse: " + st.MetaErr
+	}
+	if st.Size != m.Size {
+		return fmt.Sprintf("size %d, expected %d", st.Size, m.Size)
+	}
+	if d := m.Live.Diff(st.Live, 0); d != "" {
+		return "live image: " + d
+	}
+	if len(st.Chain) == 0 || st.Chain[0] != m.Chain[0] || st.Chain[len(st.Chain)-1] != m.Chain[len(m.Chain)-1] {
+		return fmt.Sprintf("chain %v, expected %v without some of %v", st.Chain, m.Chain, removed)
+	}
+	for _, sn := range m.Retained() {
+		skip := false
+		for _, r := range removed {
+			skip = skip || r == sn.Disk
+		}
+		if skip {
+			continue
+		}
+		if err := st.SnapErr[sn.Disk]; err != nil {
+			return fmt.Sprintf("snapshot %s unreadable: %v", sn.Disk, err)
+		}
+		img, ok := st.Snaps[sn.Disk]
+		if !ok {
+			return fmt.Sprintf("retained snapshot %s is not in the reopened chain", sn.Disk)
+		}
+		if d := sn.Img.Diff(img, 0); d != "" {
+			return fmt.Sprintf("retained snapshot %s changed: %s", sn.Disk, d)
+		}
+	}
+	if st.Counter < counterLo || st.Counter > counterHi {
+		return fmt.Sprintf("revision counter %d outside [%d,%d]", st.Counter, counterLo, counterHi)
+	}
+	return ""
+}
+
 // matchesWrite: state after an interrupted write: everything outside the
 // in-flight range as before, inside it old or new per sector.
 func (st dirState) matchesWrite(pre, post *Model, off, length int64) string {
@@ -205,10 +249,10 @@ func (st dirState) matchesWrite(pre, post *Model, off, length int64) string {
 }
 
 type c08Stats struct {
-	victimRuns, crashPoints, faultPoints, calls int
-	exhaustive                                  bool
-	opKind                                      string
-	skipped                                     string
+	victimRuns, crashPoints, faultPoints, calls, removeNext int
+	exhaustive                                              bool
+	opKind                                                  string
+	skipped                                                 string
 }
 
 // dirMarker: opens of files inside the replica directory (not /proc, /sys, the binary ...).
@@ -498,12 +542,45 @@ func runC08Case(cc C08Case) (*Fail, c08Stats, error) {
 					fvop.Then = "close" // the other follow-ups set the flag themselves
 				}
 			}
+			if fvop.Then == "removenext" {
+				fvop.Next = ""
+				if idx := preM.InChain(vop.Name); cc.Op.K == "remove" && idx >= 2 {
+					fvop.Next = preM.Chain[idx-1]
+				} else {
+					fvop.Then = "close"
+				}
+			}
 			vr, err := runVictim(work, fvop, pre.MaxChain, inj)
 			if err != nil {
 				return nil, stt, err
 			}
 			stt.victimRuns++
 			stt.faultPoints++
+			if !vr.Died && fvop.Then == "removenext" {
+				// whatever became of the two removals (done, refused, failed): deleting
+				// snapshots never changes the live data nor another retained snapshot
+				stt.removeNext++
+				if strings.Contains(vr.Raw, "THEN read error") {
+					return fail(sig0+"|"+c.Role+"|"+en+"|failed-removal-then-next-removal|read-fails",
+						fmt.Sprintf("%s on call %d/%d %s(%s) of the removal of %s (reported %q), then the removal of its child %s: the running replica no longer serves reads\n%s",
+							en, i+1, len(calls), c.Name, tailStr(c.Args, 120), vop.Name, vr.Result, fvop.Next, tailStr(vr.Raw, 600)), "C08", "C11"), stt, nil
+				}
+				if live, rerr := os.ReadFile(work + ".thenlive"); rerr == nil {
+					os.Remove(work + ".thenlive")
+					if d := preM.Live.Diff(live, 0); d != "" || int64(len(live)) != preM.Size {
+						return fail(sig0+"|"+c.Role+"|"+en+"|failed-removal-then-next-removal|live-data-changed",
+							fmt.Sprintf("%s on call %d/%d %s(%s) of the removal of %s (reported %q), then the removal of its child %s on the same replica (%s): the running replica serves (%d bytes): %s",
+								en, i+1, len(calls), c.Name, tailStr(c.Args, 120), vop.Name, vr.Result, fvop.Next, vr.Then, len(live), d), "C08", "C11"), stt, nil
+					}
+				}
+				ds := inspectDir(work, true, true)
+				if d := ds.matchesAfterRemovals(preM, cLo, cHi, vop.Name, fvop.Next); d != "" {
+					return fail(sig0+"|"+c.Role+"|"+en+"|failed-removal-then-next-removal|state-damaged",
+						fmt.Sprintf("%s on call %d/%d %s(%s) of the removal of %s (reported %q), then the removal of its child %s on the same replica (%s), then close; the directory: %s",
+							en, i+1, len(calls), c.Name, tailStr(c.Args, 120), vop.Name, vr.Result, fvop.Next, vr.Then, d), "C08", "C11"), stt, nil
+				}
+				continue
+			}
 			if vr.Died {
 				// the failure made the process exit (logrus.Fatal): a process death at that point
 				if err := checkCrashState(work, base, true, cc.Op.K, vop, preM, postM, expectRefused, cLo, cHi); err != "" {
@@ -652,6 +729,9 @@ func c08Run(t *testing.T, prop, test string, all bool, gen func(*rapid.T) C08Cas
 		if cc.Then != "" && stt.faultPoints > 0 {
 			labels = append(labels, "failed-call-then-"+cc.Then)
 		}
+		if stt.removeNext > 0 {
+			labels = append(labels, "failed-removal-then-removal-of-the-child")
+		}
 		rec.Case(cc, stt.victimRuns > 1, labels...)
 		rec.AddExtra("victim_runs", stt.victimRuns)
 		rec.AddExtra("crash_points", stt.crashPoints)
@@ -703,6 +783,23 @@ func c08Run(t *testing.T, prop, test string, all bool, gen func(*rapid.T) C08Cas
 	rapid.Check(t, func(rt *rapid.T) { run(gen(rt), rt.Fatalf) })
 }
 
+// ensureDeletable: a deletion needs a chain with snapshots below a checkpoint:
+// make sure the pre-state has them (automatic snapshots with data of their own).
+func ensureDeletable(t *rapid.T, cc C08Case) C08Case {
+	n := len(cc.Pre.Ops)
+	for k := 0; k < 3; k++ {
+		off := rapid.Int64Range(0, int64(cc.Pre.Blocks)*8-8).Draw(t, "deloff")
+		cc.Pre.Ops = append(cc.Pre.Ops,
+			Op{K: "write", Off: off, Len: rapid.Int64Range(1, 8).Draw(t, "dellen"), Seed: rapid.IntRange(1, 250).Draw(t, "delseed")},
+			Op{K: "snap", Name: fmt.Sprintf("d%d", n+k), User: rapid.IntRange(0, 3).Draw(t, "deluser") == 0})
+	}
+	cc.Pre.Ops = append(cc.Pre.Ops, Op{K: "setcp", On: true})
+	if cc.Pre.MaxChain > 0 && cc.Pre.MaxChain < 12 {
+		cc.Pre.MaxChain = 12
+	}
+	return cc
+}
+
 func genC08Case(t *rapid.T, all bool) C08Case {
 	pre := GenProgram(t, c08PreCfg)
 	// make sure a snapshot named s0 and a checkpoint exist in most pre-states
@@ -715,25 +812,35 @@ func genC08Case(t *rapid.T, all bool) C08Case {
 	}
 	cc.Op = genC08Op(t, pre.Blocks)
 	if cc.Op.K == "remove" || cc.Op.K == "markrm" {
-		// a deletion needs a chain with snapshots below a checkpoint: make sure the
-		// pre-state has them (automatic snapshots with data of their own)
-		n := len(cc.Pre.Ops)
-		for k := 0; k < 3; k++ {
-			off := rapid.Int64Range(0, int64(pre.Blocks)*8-8).Draw(t, "deloff")
-			cc.Pre.Ops = append(cc.Pre.Ops,
-				Op{K: "write", Off: off, Len: rapid.Int64Range(1, 8).Draw(t, "dellen"), Seed: rapid.IntRange(1, 250).Draw(t, "delseed")},
-				Op{K: "snap", Name: fmt.Sprintf("d%d", n+k), User: rapid.IntRange(0, 3).Draw(t, "deluser") == 0})
-		}
-		cc.Pre.Ops = append(cc.Pre.Ops, Op{K: "setcp", On: true})
-		if cc.Pre.MaxChain > 0 && cc.Pre.MaxChain < 12 {
-			cc.Pre.MaxChain = 12
-		}
+		cc = ensureDeletable(t, cc)
 	}
 	if !all {
 		cc.Sample = rapid.SliceOfN(rapid.IntRange(0, 200), 2, 4).Draw(t, "sample")
 	}
 	cc.Then = rapid.SampledFrom([]string{"", "", "close", "close", "touchmeta", "touchclose"}).Draw(t, "then")
+	if cc.Op.K == "remove" && rapid.Bool().Draw(t, "removenext") {
+		cc.Then = "removenext"
+	}
 	return cc
+}
+
+// TestC11Faults — a snapshot removal during which one file-system call fails,
+// followed (when the replica is still running) by the removal of the child of
+// that snapshot on the same replica and a normal close: the live data and the
+// other retained snapshots are what they were.
+func TestC11Faults(t *testing.T) {
+	c08Run(t, "C11", "TestC11Faults", false, func(rt *rapid.T) C08Case {
+		cc := genC08Case(rt, false)
+		if cc.Op.K != "remove" {
+			// (the pre-state is prepared for deletions only when the drawn op is one)
+			cc.Op = Op{K: "markrm"}
+			cc = ensureDeletable(rt, cc)
+			cc.Op = Op{K: "remove", Sel: rapid.IntRange(0, 7).Draw(rt, "c11sel")}
+		}
+		cc.Then = "removenext"
+		cc.Sample = rapid.SliceOfN(rapid.IntRange(0, 200), 5, 8).Draw(rt, "c11sample")
+		return cc
+	})
 }
 
 // TestC08 — the replica directory is crash-consistent at every instant.
